@@ -34,6 +34,8 @@ func (handlerSelf *HandlerDef) Post(fn func()) {
 	}
 	verifPoint("h.post.checked", handlerSelf)
 
+	// Closed between the check and the send: the work is dropped, like any Post after Close
+	defer func() { recover() }()
 	handlerSelf.ch <- fn
 }
 
